@@ -1439,11 +1439,11 @@ function tryMergeAllOfObjectSchemas(schemas: JSONSchema7[]): JSONSchema7 | null 
     }
 
     for (const [key, value] of Object.entries(schema.properties ?? {})) {
-      const existing = properties[key];
+      const existing = Object.prototype.hasOwnProperty.call(properties, key) ? properties[key] : undefined;
       if (existing != null && !jsonSchemaDefinitionEquals(existing, value)) {
         return null;
       }
-      properties[key] = value;
+      setOwnProperty(properties, key, value);
     }
   }
 
@@ -2070,10 +2070,10 @@ export class ObjectRuntype extends BaseRuntype {
       const raw = item.schema(ctx);
       const rewrite = removeNullUnionBranch(raw);
       if (rewrite != null) {
-        properties[k] = rewrite;
+        setOwnProperty(properties, k, rewrite);
         optionalized.add(k);
       } else {
-        properties[k] = raw;
+        setOwnProperty(properties, k, raw);
       }
       popPath(ctx);
     }
